@@ -174,6 +174,35 @@ static std::string dumpFaults(const Faults* f) {
   return s + ")";
 }
 
+static std::string dumpRule(const Rule* r) {
+  std::ostringstream o; o << "(" << r->getModeRule().getValue() << " " << sx_d(r->getRho()) << ")"; return o.str();
+}
+static std::string dumpAnamH(const AnamHermite* a) {
+  VectorDouble psi = a->getPsiHns();
+  std::ostringstream o; o << "(" << psi.size() << " " << sx_vd(psi) << " " << sx_d(a->getRCoef()) << ")"; return o.str();
+}
+static std::string dumpNeighU(const NeighUnique* n) { return "(" + std::to_string((int) n->getNDim()) + ")"; }
+static std::string dumpNeighB(const NeighBench* n) { return "(" + std::to_string((int) n->getNDim()) + " " + sx_d(n->getWidth()) + ")"; }
+static std::string dumpNeighC(const NeighCell* n) { return "(" + std::to_string((int) n->getNDim()) + " " + std::to_string(n->getNMini()) + ")"; }
+static std::string dumpNeighM(const NeighMoving* n) {
+  return "(" + std::to_string((int) n->getNDim()) + " " + std::to_string(n->getNMini()) + " " + std::to_string(n->getNMaxi()) + ")";
+}
+static std::string dumpVario(const Vario* v) {
+  std::ostringstream o;
+  int nd = v->getDirectionNumber();
+  o << "(" << v->getVariableNumber() << " " << nd << " " << v->getCalcul().getValue() << " (";
+  for (int i = 0; i < nd; i++) o << (i ? " " : "") << v->getLagNumber(i);
+  o << ") (";
+  for (int i = 0; i < nd; i++) o << (i ? " " : "") << (i < (int) v->_sw.size() ? (long long) v->_sw[i].size() : -1LL);
+  o << "))";
+  return o.str();
+}
+static std::string dumpModel(const Model* m) {
+  std::ostringstream o;
+  o << "(" << m->getDimensionNumber() << " " << m->getVariableNumber() << " " << m->getCovaNumber() << " " << m->getDriftNumber() << ")";
+  return o.str();
+}
+
 // ------------------------------------------------------------------ one load
 struct Outcome { int status = 0, kind = 0; std::string dump = "()"; int resave = 0, reload = 0, idem = 0, usable = 0; };
 
@@ -277,18 +306,18 @@ static Outcome loadAny(int cls, const std::string& path) {
     case C_DBGRID: return loadNF<DbGrid>(path, dumpDbGrid);
     case C_TABLE: return loadNF<Table>(path, dumpTable);
     case C_POLYGONS: return loadNF<Polygons>(path, dumpPolygons);
-    case C_VARIO: return loadNF<Vario>(path, nullptr);
-    case C_MODEL: return loadNF<Model>(path, nullptr);
-    case C_NEIGHMOVING: return loadNF<NeighMoving>(path, nullptr);
-    case C_NEIGHUNIQUE: return loadNF<NeighUnique>(path, nullptr);
-    case C_NEIGHBENCH: return loadNF<NeighBench>(path, nullptr);
-    case C_ANAMHERMITE: return loadNF<AnamHermite>(path, nullptr);
+    case C_VARIO: return loadNF<Vario>(path, dumpVario);
+    case C_MODEL: return loadNF<Model>(path, dumpModel);
+    case C_NEIGHMOVING: return loadNF<NeighMoving>(path, dumpNeighM);
+    case C_NEIGHUNIQUE: return loadNF<NeighUnique>(path, dumpNeighU);
+    case C_NEIGHBENCH: return loadNF<NeighBench>(path, dumpNeighB);
+    case C_ANAMHERMITE: return loadNF<AnamHermite>(path, dumpAnamH);
     case C_POLYLINE: return loadNF<PolyLine2D>(path, dumpPolyLine);
     case C_MESHETURBO: return loadNF<MeshETurbo>(path, nullptr);
-    case C_RULE: return loadNF<Rule>(path, nullptr);
+    case C_RULE: return loadNF<Rule>(path, dumpRule);
     case C_FAULTS: return loadNF<Faults>(path, dumpFaults);
     case C_NEIGHIMAGE: return loadNF<NeighImage>(path, nullptr);
-    case C_NEIGHCELL: return loadNF<NeighCell>(path, nullptr);
+    case C_NEIGHCELL: return loadNF<NeighCell>(path, dumpNeighC);
     case C_ANAMEMPIRICAL: return loadNF<AnamEmpirical>(path, nullptr);
     case C_ANAMDD: return loadNF<AnamDiscreteDD>(path, nullptr);
     case C_ANAMIR: return loadNF<AnamDiscreteIR>(path, nullptr);
